@@ -951,7 +951,8 @@ impl BufferParser for Parser {
                         self.state = EngineState::Default;
 
                         if let Some(number) = self.parsed_numbers.first() {
-                            for _ in 0..*number {
+                            // a line holds at most width characters
+                            for _ in 0..min(*number, buf.terminal_state.get_width()) {
                                 caret.ins(buf, current_layer);
                             }
                         } else {
@@ -1037,7 +1038,8 @@ impl BufferParser for Parser {
                                 ).into());
                             }
                             if let Some(number) = self.parsed_numbers.first() {
-                                for _ in 0..*number {
+                                // a line holds at most width characters
+                                for _ in 0..min(*number, buf.terminal_state.get_width()) {
                                     caret.del(buf,current_layer);
                                 }
                             } else {
@@ -1061,7 +1063,8 @@ impl BufferParser for Parser {
                                 ).into());
                             }
                             if let Some(number) = self.parsed_numbers.first() {
-                                for _ in 0..*number {
+                                // the screen holds at most height lines
+                                for _ in 0..min(*number, buf.terminal_state.get_height()) {
                                     buf.insert_terminal_line(current_layer,caret.pos.y);
                                 }
                             } else {
@@ -1272,6 +1275,8 @@ impl BufferParser for Parser {
                         } else {
                             1
                         };
+                        // scrolling more than a screen height leaves an empty scroll region
+                        let num = min(num, buf.terminal_state.get_height());
                         (0..num).for_each(|_| buf.scroll_up(current_layer));
                         return Ok(CallbackAction::Update);
                     }
@@ -1283,6 +1288,8 @@ impl BufferParser for Parser {
                         } else {
                             1
                         };
+                        // scrolling more than a screen height leaves an empty scroll region
+                        let num = min(num, buf.terminal_state.get_height());
                         (0..num).for_each(|_| buf.scroll_down(current_layer));
                         return Ok(CallbackAction::Update);
                     }
@@ -1296,6 +1303,8 @@ impl BufferParser for Parser {
                             1
                         };
                         let ch = AttributedChar::new(self.last_char, caret.get_attribute());
+                        // repeating more often than the screen has cells only scrolls the same character through
+                        let num = min(num, buf.terminal_state.get_width().saturating_mul(buf.terminal_state.get_height()));
                         (0..num).for_each(|_| buf.print_char(current_layer, caret, ch));
                         return Ok(CallbackAction::Update);
                     }
@@ -1342,6 +1351,8 @@ impl BufferParser for Parser {
                         } else {
                             1
                         };
+                        // there are no more moves than tab stops
+                        let num = min(num, buf.terminal_state.tab_count() as i32 + 1);
                         (0..num).for_each(|_| caret.set_x_position(buf.terminal_state.next_tab_stop(caret.get_position().x)));
                         return Ok(CallbackAction::Update);
                     }
@@ -1359,6 +1370,8 @@ impl BufferParser for Parser {
                         } else {
                             1
                         };
+                        // there are no more moves than tab stops
+                        let num = min(num, buf.terminal_state.tab_count() as i32 + 1);
                         (0..num).for_each(|_| caret.set_x_position(buf.terminal_state.prev_tab_stop(caret.get_position().x)));
                         return Ok(CallbackAction::Update);
                     }
